@@ -7,6 +7,7 @@ PROPS_USE = "RotoV.Props.C18Use"
 PROPS_PASSES = "RotoV.Props.C18Passes"
 PROPS_HISTORY = "RotoV.Props.C18History"
 PROPS_NAMES = "RotoV.Props.C18Names"
+PROPS_DECLTYPE = "RotoV.Props.C18DeclType"
 
 
 def search(ctx):
@@ -22,7 +23,7 @@ def search(ctx):
 
 
 def run(ctx):
-    ctx.extract(["keywords", "flattenuse", "regpasses", "itemnames"])
+    ctx.extract(["keywords", "flattenuse", "regpasses", "itemnames", "decltype"])
     # three theorem modules, so that a change to the macro breaks exactly the T5 obligations, a change to the pass
     # structure of Rt::add exactly those of C18Passes and a change to the lexer's keyword table the others
     parts = []
@@ -53,7 +54,10 @@ def run(ctx):
         ctx.coverage["theorems"] = [t for p in parts for t in p["theorems"]]
         ctx.coverage["nonvacuity_examples"] = sum(p["nonvacuity_examples"] or 0 for p in parts)
         ctx.coverage["axioms"] = {k: v for p in parts for k, v in (p["axioms"] or {}).items()}
-    ok2 = ok2 and ok3 and ok4 and ok5
+    # the decision of Rt::declare_type (its guards over the registered entries, regenerated): "a Rust type is registered
+    # twice" is decided on the Rust type alone, whatever the identifier and the scope
+    ok6 = prove(PROPS_DECLTYPE, ["RotoV.Model.RegistrationDeclType"])
+    ok2 = ok2 and ok3 and ok4 and ok5 and ok6
     if not (ok1 and ok2):
         ctx.lake_build(["rotov-driver"])
     if ctx.build_harness("c18"):
@@ -69,6 +73,9 @@ def run(ctx):
         "resolution of every probed path); the bodies of the leaf functions (declare_type / declare_function / "
         "declare_constant / check_name, the scope graph's insert_*) are tied by (b) only; the quantifier over "
         "libraries is sampled there",
+        "Rt::declare_type: its guards over the entries of self.types are regenerated (target decltype) as Boolean functions "
+        "of (same Rust type, same identifier, same scope) and proved to be the model's two early exits; that the scan is "
+        "over ALL of self.types, and declare_runtime_type itself, are tied by the differential run only",
         "script-side name lookup is modelled for a fresh script at top level (root declarations, then root imports)",
         "library!: flatten_use_tree is regenerated from macros/src/lib.rs by a transliterator for list-functional Rust "
         "(extract/src/targets/c18.rs, mod listfn) and proved equal to the specification for all use trees; syn's parse "
